@@ -124,7 +124,13 @@ class Pervaporation:
         permeate_composition = get_permeate_composition_from_fluxes(initial_fluxes)
 
         d = 1
+        iterations = 0
         while d >= precision:
+            iterations += 1
+            if iterations > 10000:
+                raise ValueError(
+                    "Permeate composition did not converge in the stated conditions range"
+                )
             try:
                 permeate_composition_new = get_permeate_composition_from_fluxes(
                     self.get_partial_fluxes_from_permeate_composition(
